@@ -42,6 +42,8 @@ def run_one(name, props, tier, verify=True):
     if rc != 0:
         res["error"] = "patch does not apply: " + out[-500:]
         return res
+    # the evidence files under /verif/evidence describe the UNCHANGED tree: keep them as they are
+    saved = {f: f.read_bytes() for f in (ROOT / "evidence").glob("*.json")}
     try:
         if verify:
             rc, out = sh(["python3", str(ROOT / "tools" / "baseline.py")])
@@ -60,6 +62,8 @@ def run_one(name, props, tier, verify=True):
                                 "with_failing_input": any(l.startswith("VIOLATION") and not l.rstrip().endswith("no-failing-input-found") for l in lines)}
     finally:
         sh(["git", "-C", REPO, "checkout", "--", "."])
+        for f, b in saved.items():
+            f.write_bytes(b)
     return res
 
 
